@@ -47,8 +47,10 @@ def run(pid, tier, seed):
     samples = rep["samples"][:3]
     for k, (events, vs, _) in enumerate(c.validate_traces("Trace_Cli", cmds, wd, "trace_cli", timeout=5400)):
         validated += len(events)
+        rrep = json.load(open(reports[k]))
+        violations += rrep["violations"]            # the recorder's own verdicts (files too big for the model: file mode vs interactive)
         if k == 0:
-            samples += json.load(open(reports[k]))["samples"][:2]
+            samples += rrep["samples"][:2]
         for v in vs:
             ev = events[v["i"] - 1]
             for why in v["why"]:
